@@ -5,7 +5,7 @@ seven control command classes and Engine._validate_control_command are interpret
 {started, paused, holding, stopping} x System State x Run Id x in-flight commands x one pending
 user request; all sequences of user requests (accepted per the extracted gating predicate) and
 method-scheduled commands at all ticks are explored to a fix-point (finite domain => all lengths).
-R06a invariant at every tick boundary: started <=> System State != Stopped; if started, System State
+R06a invariant at every tick boundary: started <=> System State != Stopped (and then no paused/holding flag is left); if started, System State
      is Restarting (only while a Restart is in flight) or else Paused if paused, else Holding if
      holding, else Running; Run Id set <=> started.
 R06b gating: for every reachable state and each of the 7 commands, _validate_control_command accepts
@@ -82,6 +82,9 @@ def run(ctx) -> None:
         if d["sys"] not in expected_sys(d):
             probs.append(f"System State is {d['sys']} but flags started={d['started']} paused={d['paused']} holding={d['holding']} "
                          f"require {sorted(expected_sys(d))}")
+        if not d["started"] and d["if_Restart"] is None and (d["paused"] or d["holding"] or d["stopping"]):
+            probs.append(f"no run is active but the reported control state still has paused={d['paused']} holding={d['holding']} "
+                         f"stopping={d['stopping']}")
         if (d["run_id"] == "set") != d["started"]:
             probs.append(f"Run Id is {'set' if d['run_id'] else 'empty'} while started={d['started']}")
         if probs:
